@@ -284,6 +284,10 @@ def sketches(repo, chk):
                     has[st] = not v
                 elif tt == E(f'{col} in {st}'):
                     has[st] = v
+                elif tt in (E(f'{st}.get({col}) is None'), E(f'{st}.get({col}) == None')):
+                    has[st] = not v          # (the stores hold sketches / counters, never None)
+                elif tt in (E(f'{st}.get({col}) is not None'), E(f'{st}.get({col}) != None')):
+                    has[st] = v
         # construction of the per-column objects
         for st, (ctor, oid) in stores.items():
             inits = [u for u in res.updates if u['kind'] == 'store1' and term_of(fn, u['target'], inline=False) == ('name', st)]
@@ -299,8 +303,19 @@ def sketches(repo, chk):
         # the feeding loops
         feeds = [u for u in res.updates if u['kind'] == 'foreach' and u['op'] == 'call']
         cnt_feeds, sk_feeds = [], []
+        # other spellings of "the object of this column": STORE.get(column) where it exists, and the object that was just stored under STORE[column]
+        same_obj = {}
+        for st in stores:
+            same_obj[('call', ('attr', ('name', st), 'get'), (C,), ())] = ('sub', ('name', st), C)
+            for u0 in res.updates:
+                if u0['kind'] == 'store1' and term_of(fn, u0['target'], inline=False) == ('name', st) and term_of(fn, u0['key'], inline=False, bound={col: C}) == C:
+                    same_obj[term_of(fn, u0['value'], inline=False, bound={col: C})] = ('sub', ('name', st), C)
+                    nd0 = u0.get('node')
+                    if isinstance(nd0, ast.Assign) and isinstance(nd0.value, ast.Name):
+                        same_obj[('name', nd0.value.id)] = ('sub', ('name', st), C)      # STORE[column] = obj: obj is that object from here on
         for u in feeds:
             chain, key, val, guard, a_, tgt = _loop_terms(fn, u, {col: C})
+            tgt = same_obj.get(tgt, tgt)
             if tgt == ('sub', ('name', 'GLOBAL_COUNTS_STORAGE'), C):
                 cnt_feeds.append((u, chain, guard, a_))
             elif tgt == ('sub', ('name', 'GLOBAL_CARDINALITY_STORAGE'), C):
@@ -506,6 +521,31 @@ def coverage(repo, chk):
     col = lp.target.id if isinstance(lp.target, ast.Name) else None
     E = lambda s: expected_term(m, s)
     t = term_of(fn, st.value, inline=True)
+    # flow-sensitive: one iteration of the column loop evaluated as a path (locals substituted in program order, an accumulation loop summarised)
+    try:
+        from ..match import run_paths
+        ps = run_paths(fn, None, None, max_forks=2, body=lp.body)
+        if ps and len(ps) == 1 and ps[0][1].unknown is None:
+            ups = [u for u in ps[0][1].updates if u['kind'] == 'store1']
+            if len(ups) == 1:
+                # names bound before the loop
+                pre = {}
+                for b in fn.node.body:
+                    if b is lp:
+                        break
+                    if isinstance(b, ast.Assign) and len(b.targets) == 1 and isinstance(b.targets[0], ast.Name):
+                        pre[b.targets[0].id] = term_of(fn, b.value, inline=False, bound=dict(pre))
+                t2 = term_of(fn, ups[0]['value'], inline=False, bound=pre)
+
+                def fold_is_sum(x):
+                    if isinstance(x, tuple):
+                        x = tuple(fold_is_sum(y) for y in x)
+                        if len(x) == 4 and x[0] == 'call' and x[1] == ('name', '__fold_add__'):
+                            return ('call', ('name', 'sum'), x[2], x[3])
+                    return x
+                t = fold_is_sum(t2)
+    except Exception:
+        pass
     miss_sets = [f"set({args}.missing_value_symbols.split(','))", f"{args}.missing_value_symbols.split(',')"]
     vals = [f'{frame}[{col}].values.tolist()', f'{frame}[{col}].tolist()', f'list({frame}[{col}])']
     forms = []
